@@ -108,7 +108,7 @@ impl Prop for C14 {
         "C14"
     }
     fn cases(&self, ctx: &Ctx) -> u64 {
-        ctx.tier.pick(2500, 60_000) + exh_total(ctx.tier.pick(4, 6)).div_ceil(EXH_BATCH)
+        ctx.tier.pick(25_000, 300_000) + exh_total(ctx.tier.pick(4, 6)).div_ceil(EXH_BATCH)
     }
     fn rule(&self) -> &'static str {
         "DelphiLogicalLineParser.parse(DelphiLexer.lex(x)) observed at the quiescent point after parsing; universal clauses (non-empty lines, strictly increasing in-range indices, every token covered, exactly once without conditional directives) on all generators, and on every sequence up to length 4 (quick) / 6 (thorough) over a 10-lexeme directive/comment alphabet ({$IFDEF A} {$ELSE} {$ENDIF} {$R+} // c {c} a ; begin end); parent and end-of-file clauses on grammar programs (all decorated layouts incl. directives wrapping statements) and seeds; hook: parser passes <= conditional branches + 1. Non-trivial: >= 3 lines and >= 1 child line or directive; distinct by hash of the token-kind sequence."
